@@ -1,10 +1,10 @@
 package main
 
 import (
-	"os"
 	"fmt"
 	"go/token"
 	"go/types"
+	"os"
 	"sort"
 	"strings"
 
@@ -207,7 +207,7 @@ type tstate struct {
 }
 
 type allocStore struct {
-	st     *ssa.Store
+	st     ssa.Instruction // the store, or the call of a module helper that stores through the pointer on all its paths
 	prefix []string
 }
 
@@ -235,6 +235,22 @@ func (st *tstate) rootStores(root *ssa.Alloc) []allocStore {
 			case *ssa.FieldAddr:
 				if r.X == cur {
 					walk(r, append(append([]string{}, prefix...), fieldElem(cur.Type(), r.Field)), depth+1)
+				}
+			case *ssa.Call:
+				// a module helper that, whenever it returns, has stored through the pointer handed in
+				if h := r.Common().StaticCallee(); h != nil && h.Blocks != nil && !r.Common().IsInvoke() {
+					for i, a := range r.Common().Args {
+						if a != cur || i >= len(h.Params) {
+							continue
+						}
+						if ws, simple := outparamWrites(h.Params[i]); simple {
+							for _, pw := range ws {
+								if pw.must {
+									out = append(out, allocStore{r, append(append([]string{}, prefix...), pw.prefix...)})
+								}
+							}
+						}
+					}
 				}
 			}
 		}
@@ -657,11 +673,29 @@ func (st *tstate) allocContents(root *ssa.Alloc, cur ssa.Value, prefix []string,
 					continue // a module helper that only reads what the pointer points to
 				}
 			}
-			for _, a := range r.Common().Args {
+			for ai, a := range r.Common().Args {
 				if a == cur {
 					if st.killed(root, r, prefix, path) {
 						n++
 						continue
+					}
+					// a module helper that only stores through the pointer (no further escape): the values it stores,
+					// traced in the helper with its parameters bound to this call's arguments
+					if h := r.Common().StaticCallee(); h != nil && h.Blocks != nil && !r.Common().IsInvoke() && ai < len(h.Params) && c.depth < st.t.Depth && !st.t.Opaque[funcName(h)] {
+						if ws, simple := outparamWrites(h.Params[ai]); simple {
+							hc := &tctx{parent: c, fn: h, call: r.Common(), depth: c.depth + 1}
+							for _, pw := range ws {
+								full := append(append([]string{}, prefix...), pw.prefix...)
+								if rest, ok := relPath(full, path); ok {
+									old := st.at
+									st.at = nil
+									st.trace(pw.st.Val, rest, hc)
+									st.at = old
+									n++
+								}
+							}
+							continue
+						}
 					}
 					if _, ok := relPath(prefix, path); ok || pathCompatible(prefix, path) {
 						st.o.Calls[r] = true
@@ -1091,4 +1125,93 @@ func (st *tstate) freeVarStores(fv *ssa.FreeVar, path []string, c *tctx) int {
 		fmt.Println("FVSTORES", fv.Parent().Name(), fv.Name(), pathStr(path), n)
 	}
 	return n
+}
+
+// paramWrite is a store a helper makes through one of its pointer parameters.
+type paramWrite struct {
+	st     *ssa.Store
+	prefix []string // field path below the pointee
+	must   bool     // executed on every path of the helper that returns
+}
+
+var outparamWritesMemo = map[*ssa.Parameter]struct {
+	ws     []paramWrite
+	simple bool
+}{}
+
+// outparamWrites lists the stores a function makes through pointer parameter p. simple is false when the pointer is
+// used for anything but loads, field selections and stores through it (it is passed on, stored, compared, merged).
+func outparamWrites(p *ssa.Parameter) ([]paramWrite, bool) {
+	if m, ok := outparamWritesMemo[p]; ok {
+		return m.ws, m.simple
+	}
+	fn := p.Parent()
+	var rets []*ssa.BasicBlock
+	for _, b := range fn.Blocks {
+		if len(b.Instrs) > 0 {
+			if _, ok := b.Instrs[len(b.Instrs)-1].(*ssa.Return); ok {
+				rets = append(rets, b)
+			}
+		}
+	}
+	must := func(in ssa.Instruction) bool {
+		if len(rets) == 0 || fn.Recover != nil {
+			return false
+		}
+		for _, rb := range rets {
+			if !(in.Block() == rb || in.Block().Dominates(rb)) {
+				return false
+			}
+		}
+		return true
+	}
+	var ws []paramWrite
+	simple := true
+	var walk func(cur ssa.Value, prefix []string, depth int)
+	walk = func(cur ssa.Value, prefix []string, depth int) {
+		refs := cur.Referrers()
+		if refs == nil {
+			return
+		}
+		if depth > 6 {
+			simple = false
+			return
+		}
+		for _, ref := range *refs {
+			switch r := ref.(type) {
+			case *ssa.Store:
+				if r.Addr == cur {
+					ws = append(ws, paramWrite{r, prefix, must(r)})
+				} else {
+					simple = false
+				}
+			case *ssa.FieldAddr:
+				if r.X == cur {
+					walk(r, append(append([]string{}, prefix...), fieldElem(cur.Type(), r.Field)), depth+1)
+				}
+			case *ssa.UnOp:
+				if r.Op != token.MUL {
+					simple = false
+				}
+			case *ssa.DebugRef:
+			case *ssa.BinOp:
+				// nil comparison of the pointer
+				if !(isNilConst(r.X) || isNilConst(r.Y)) {
+					simple = false
+				}
+			default:
+				simple = false
+			}
+		}
+	}
+	if _, ok := p.Type().Underlying().(*types.Pointer); !ok {
+		simple = false
+	} else {
+		walk(p, nil, 0)
+	}
+	outparamWritesMemo[p] = struct {
+		ws     []paramWrite
+		simple bool
+	}{ws, simple}
+	return ws, simple
 }
